@@ -1,7 +1,7 @@
 (* C13 — results are invariant under rotations, row order, patch labels and weight scale; raw
    counts are additive.  Statements about the specification of the measurement
    (count / norm_count / loo_count over labelled weighted points, any distance function). *)
-From Verif Require Import Prelude PairCount Invariance InvarianceP Rotation Jackknife InvarianceXP.
+From Verif Require Import Prelude PairCount Invariance InvarianceP Rotation Jackknife InvarianceXP InvarianceSize InvarianceSizeP.
 From Coq Require Import Permutation.
 Open Scope Q_scope.
 
@@ -343,4 +343,141 @@ Example C13_extents_concrete :
   Qeqb (linked_count line_ang (link_sym line_ang c R M) 0 M D U1 + linked_count line_ang (link_sym line_ang c R M) 0 M D U2) 10 = true /\
   Qeqb (linked_count line_ang (auto_link (link_sym line_ang c R M)) 0 M D D) 6 = true /\
   Qeqb (linked_count line_ang (link_own line_ang c r R M) 0 M D (U1 ++ U2)) 0 = true.
+Proof. vm_compute. repeat split; reflexivity. Qed.
+
+(* ---------- catalogs of any size: the metadata that decide the linkage are taken over ALL rows ---------- *)
+(* The radius stored with a patch is the largest separation of any of its rows from the stored centre.  As a maximum over
+   all rows it does not depend on the order of the rows ... *)
+Theorem C13_radius_row_perm : forall (P : Type) (ang : P -> P -> Q) c (A A' : list (lobj P)),
+  Permutation A A' -> radius_all ang c A == radius_all ang c A'.
+Proof. exact @radius_all_row_perm. Qed.
+Print Assumptions C13_radius_row_perm.
+
+(* ... nor on how they are cut into chunks (the maximum of the maxima of the chunks) ... *)
+Theorem C13_radius_chunks : forall (P : Type) (ang : P -> P -> Q) c (chunks : list (list (lobj P))),
+  radius_all ang c (concat chunks) == qmax_list (map (radius_all ang c) chunks).
+Proof. exact @radius_all_chunks. Qed.
+Print Assumptions C13_radius_chunks.
+
+(* ... it bounds the separation of every row and is the least such bound ... *)
+Theorem C13_radius_covers : forall (P : Type) (ang : P -> P -> Q) c (A : list (lobj P)) o,
+  In o A -> ang (lp o) c <= radius_all ang c A.
+Proof. exact @radius_all_covers. Qed.
+Print Assumptions C13_radius_covers.
+Theorem C13_radius_least : forall (P : Type) (ang : P -> P -> Q) c (A : list (lobj P)) r,
+  0 <= r -> (forall o, In o A -> ang (lp o) c <= r) -> radius_all ang c A <= r.
+Proof. exact @radius_all_least. Qed.
+Print Assumptions C13_radius_least.
+
+(* ... and the radii of a measurement (per patch the maximum over the catalogs, [reach]) are made of it and do not depend
+   on the row order of any catalog, nor does the decision which patch pairs are visited *)
+Theorem C13_reach_is_radius_over_all_rows : forall (P : Type) (ang : P -> P -> Q) c (cats : list (list (lobj P))) i,
+  reach_by (radius_all ang) c cats i == reach ang c cats i.
+Proof. exact @reach_by_all. Qed.
+Print Assumptions C13_reach_is_radius_over_all_rows.
+Theorem C13_reach_row_perm : forall (P : Type) (ang : P -> P -> Q) c (cats cats' : list (list (lobj P))) i,
+  Forall2 (@Permutation (lobj P)) cats cats' -> reach ang c cats i == reach ang c cats' i.
+Proof. exact @reach_row_perm. Qed.
+Print Assumptions C13_reach_row_perm.
+Theorem C13_link_row_perm : forall (P : Type) (ang : P -> P -> Q) c (cats cats' : list (list (lobj P))) M i j,
+  Forall2 (@Permutation (lobj P)) cats cats' ->
+  link_sym ang c (reach ang c cats) M i j = link_sym ang c (reach ang c cats') M i j.
+Proof. exact @link_row_perm. Qed.
+Print Assumptions C13_link_row_perm.
+
+(* hence, in any metric space and at any size: counting over the patch pairs linked through these radii loses nothing,
+   the same rows in another order count the same, and the parts of a split catalog - however much smaller than the whole -
+   add up to it *)
+Theorem C13_linked_count_all_rows : forall (P : Type) (ang : P -> P -> Q),
+  (forall a b, ang a b == ang b a) -> (forall a b c, ang a c <= ang a b + ang b c) ->
+  forall c (cats : list (list (lobj P))) M lo hi A B, In A cats -> In B cats -> hi <= M ->
+  linked_count ang (link_sym ang c (reach ang c cats) M) lo hi A B == count ang lo hi A B.
+Proof. exact @linked_count_all_rows. Qed.
+Print Assumptions C13_linked_count_all_rows.
+Theorem C13_linked_count_all_rows_perm : forall (P : Type) (ang : P -> P -> Q),
+  (forall a b, ang a b == ang b a) -> (forall a b c, ang a c <= ang a b + ang b c) ->
+  forall c (cats cats' : list (list (lobj P))) M lo hi A A' B B',
+  In A cats -> In B cats -> In A' cats' -> In B' cats' -> hi <= M -> Permutation A A' -> Permutation B B' ->
+  linked_count ang (link_sym ang c (reach ang c cats') M) lo hi A' B'
+  == linked_count ang (link_sym ang c (reach ang c cats) M) lo hi A B.
+Proof. exact @linked_count_all_rows_perm. Qed.
+Print Assumptions C13_linked_count_all_rows_perm.
+Theorem C13_linked_count_all_rows_split : forall (P : Type) (ang : P -> P -> Q),
+  (forall a b, ang a b == ang b a) -> (forall a b c, ang a c <= ang a b + ang b c) ->
+  forall c (cats cats1 cats2 : list (list (lobj P))) M lo hi A B1 B2,
+  In A cats -> In (B1 ++ B2) cats -> In A cats1 -> In B1 cats1 -> In A cats2 -> In B2 cats2 -> hi <= M ->
+  linked_count ang (link_sym ang c (reach ang c cats) M) lo hi A (B1 ++ B2)
+  == linked_count ang (link_sym ang c (reach ang c cats1) M) lo hi A B1
+     + linked_count ang (link_sym ang c (reach ang c cats2) M) lo hi A B2.
+Proof. exact @linked_count_all_rows_split. Qed.
+Print Assumptions C13_linked_count_all_rows_split.
+
+(* A maximum over the rows picked by a rule on the row index is a lower bound of the radius, whatever the rule ... *)
+Theorem C13_radius_sub_lower_bound : forall (P : Type) (ang : P -> P -> Q) sel c (A : list (lobj P)),
+  radius_sub ang sel c A <= radius_all ang c A.
+Proof. exact @radius_sub_le. Qed.
+Print Assumptions C13_radius_sub_lower_bound.
+(* ... a probe of about m rows IS the radius on every patch of fewer than 2 m rows (no catalog of such sizes tells them
+   apart) ... *)
+Theorem C13_radius_probe_small_sizes : forall (P : Type) (ang : P -> P -> Q) m c (A : list (lobj P)),
+  (length A < 2 * m)%nat -> radius_probe ang m c A = radius_all ang c A.
+Proof. exact @radius_probe_small. Qed.
+Print Assumptions C13_radius_probe_small_sizes.
+(* ... and beyond that it depends on the order of the rows and does not cover the patch: every k-th row, any k >= 2 ... *)
+Theorem C13_radius_stride_order_refuted : forall k, (2 <= k)%nat ->
+  exists (A A' : list (lobj Q)) (c : Q),
+    Permutation A A' /\
+    radius_sub line_ang (every k) c A == radius_all line_ang c A /\
+    radius_sub line_ang (every k) c A' < radius_all line_ang c A' /\
+    ~ radius_sub line_ang (every k) c A == radius_sub line_ang (every k) c A'.
+Proof. exact radius_stride_order_refuted. Qed.
+Print Assumptions C13_radius_stride_order_refuted.
+(* ... the first m rows, any m >= 1 *)
+Theorem C13_radius_first_rows_order_refuted : forall m, (1 <= m)%nat ->
+  exists (A A' : list (lobj Q)) (c : Q),
+    Permutation A A' /\ ~ radius_sub line_ang (first_rows m) c A == radius_sub line_ang (first_rows m) c A'.
+Proof. exact radius_first_rows_order_refuted. Qed.
+Print Assumptions C13_radius_first_rows_order_refuted.
+
+(* the linkage made from probed radii: a counted pair is lost, or not, depending on the row order, and the parts of a split
+   catalog - small enough for every row to be looked at - do not add up to the whole *)
+Theorem C13_probe_link_refuted :
+  exists (m : nat) (c : nat -> Q) (M lo hi : Q) (D U U' U1 U2 : list (lobj Q)),
+    Permutation U U' /\ U = U1 ++ U2 /\ hi <= M /\
+    linked_count line_ang (link_sym line_ang c (reach line_ang c [D; U]) M) lo hi D U == count line_ang lo hi D U /\
+    ~ linked_count line_ang (link_sym line_ang c (reach_by (radius_probe line_ang m) c [D; U]) M) lo hi D U
+      == count line_ang lo hi D U /\
+    ~ linked_count line_ang (link_sym line_ang c (reach_by (radius_probe line_ang m) c [D; U']) M) lo hi D U'
+      == linked_count line_ang (link_sym line_ang c (reach_by (radius_probe line_ang m) c [D; U]) M) lo hi D U /\
+    ~ linked_count line_ang (link_sym line_ang c (reach_by (radius_probe line_ang m) c [D; U]) M) lo hi D U
+      == linked_count line_ang (link_sym line_ang c (reach_by (radius_probe line_ang m) c [D; U1]) M) lo hi D U1
+         + linked_count line_ang (link_sym line_ang c (reach_by (radius_probe line_ang m) c [D; U2]) M) lo hi D U2.
+Proof. exact probe_link_refuted. Qed.
+Print Assumptions C13_probe_link_refuted.
+
+(* on the line, centres 0 and 4, M = hi = 16/10: a sample U of four rows in patch 0, one of them out at 17/10, and data at 3
+   in patch 1.  Over all rows the radius of patch 0 is 17/10 in either row order and in two chunks, the patches are linked
+   and the pair (weight 3 * 5) is counted; a probe of about 2 rows sees 1/10 or 17/10 depending on the order.  The checkers
+   of the harness: the stored metadata pass against the separations that decide the maximum and fail with the probed radius,
+   a wrong number of rows or a shifted centre; a patch pair that has to be linked and is not is reported *)
+Example C13_size_concrete :
+  let c := fun i : nat => match i with O => 0 | _ => 4 end in
+  let D := [lrow 3 3 1] in
+  let U := [lrow 0 1 0; lrow (17 # 10) 5 0; lrow (1 # 10) 1 0; lrow (- (1 # 10)) 1 0] in
+  let U' := [lrow (17 # 10) 5 0; lrow 0 1 0; lrow (1 # 10) 1 0; lrow (- (1 # 10)) 1 0] in
+  let M := 16 # 10 in
+  Qeqb (radius_all line_ang 0 U) (17 # 10) = true /\ Qeqb (radius_all line_ang 0 U') (17 # 10) = true /\
+  Qeqb (qmax_list (map (radius_all line_ang 0) [firstn 2 U; skipn 2 U])) (17 # 10) = true /\
+  Qeqb (radius_probe line_ang 2 0 U) (1 # 10) = true /\ Qeqb (radius_probe line_ang 2 0 U') (17 # 10) = true /\
+  Qeqb (radius_probe line_ang 3 0 U) (17 # 10) = true /\
+  link_sym line_ang c (reach line_ang c [D; U]) M 1 0 = true /\
+  link_sym line_ang c (reach_by (radius_probe line_ang 2) c [D; U]) M 1 0 = false /\
+  Qeqb (linked_count line_ang (link_sym line_ang c (reach line_ang c [D; U]) M) 0 M D U) 15 = true /\
+  Qeqb (linked_count line_ang (link_sym line_ang c (reach_by (radius_probe line_ang 2) c [D; U]) M) 0 M D U) 0 = true /\
+  c13_meta_case (17 # 10) [1 # 10; 17 # 10] 4 4 8 8 0 (17 # 10) = 0%nat /\
+  c13_meta_case (1 # 10) [1 # 10; 17 # 10] 4 4 8 8 0 (17 # 10) = 3%nat /\
+  c13_meta_case (17 # 10) [1 # 10; 17 # 10] 3 4 8 8 0 (17 # 10) = 4%nat /\
+  c13_meta_case (17 # 10) [1 # 10; 17 # 10] 4 4 8 8 (1 # 1000) (17 # 10) = 8%nat /\
+  c13_links_case M [(4, 17 # 10, 1, true)] = 0%nat /\ c13_links_case M [(4, 17 # 10, 1, false)] = 2%nat /\
+  c13_links_case M [(4, 1 # 10, 1, false)] = 3%nat.
 Proof. vm_compute. repeat split; reflexivity. Qed.
